@@ -85,6 +85,8 @@ def run(v, tier, rng, write_known=False):
         if mn.startswith("J") and args in (["farundef"], ["farbig"]) and len(xb) > 0 and xb[-2:] != (b"\x00\xf0" if args == ["farbig"] else b"\xff\xff"):
             # a far jump came out although its segment is unknown, or with another segment than the one written
             fail.append((i, "far-jump-segment-substituted"))
+        if mn != "JMP" and any(a.startswith("far") for a in args) and len(xb) > 0 and (xb[:1] == b"\xea" or xb[:2] == b"\x66\xea"):
+            fail.append((i, "far-pointer-operand-assembled-as-JMP"))          # EA = JMP ptr16:16/32 (SDM); CALL is 9A, Jcc has no far form
         if mn in DETAILED and any(a.startswith("badpair") for a in args) and emitting and len(xb) > 0:
             # the operand has no encoding at all (no 16-bit ModR/M row for this register pair): bytes without a diagnostic
             # can only be some other instruction
